@@ -120,3 +120,24 @@ Theorem C12_refuted_surviving_worker_blocks_forever :
 Proof. exact block_failed_call_blocks_survivors. Qed.
 Print Assumptions C12_refuted_surviving_worker_blocks_forever.
 End RefutedC12.
+
+(* ---- the block-allocation executor WITH cache_directory (Model/CacheExec.v: the cache steps of a
+   worker thread - listdir, the hit path, the dump - laid over Model/Exec.v; tied to the code by full
+   lockstep).  Proofs/CacheLive.v (935 lines): for every program without failing calls and without
+   cancellation (finding D18) that submits no two identical calls (finding D17), every number of
+   workers, ANY initial cache directory (hits on complete and on incomplete entries included) and
+   every kill-free schedule: when no thread or process can take a step, the client has finished,
+   every submitted future is done, every worker process has exited, every worker thread has ended. ---- *)
+From EL Require Model.FileSpec Model.CacheExec Model.CacheLiveSpec Proofs.CacheLive Proofs.CacheLiveCor.
+Theorem C12_cached_rest_state :
+  forall c n prog fs0 s,
+    nofail (CacheExec.cbase c) -> 1 <= nworkers (CacheExec.cbase c) -> wf_prog n prog -> FileSpec.nocancel prog = true ->
+    CacheLiveSpec.canon_inj_on c prog ->
+    CacheLive.creach_nk c (CacheExec.cinit n prog fs0) s ->
+    CacheExec.cenabled c s = [] ->
+    main (CacheExec.cb s) = MEnd
+    /\ (forall i, In i (subm (CacheExec.cb s)) -> fdone (getf (CacheExec.cb s) i) = true)
+    /\ (forall p, In p (ps (CacheExec.cb s)) -> palive p = false)
+    /\ (forall w, In w (ws (CacheExec.cb s)) -> wdone w = true).
+Proof. exact CacheLiveCor.cache_rest. Qed.
+Print Assumptions C12_cached_rest_state.
